@@ -3,6 +3,22 @@ use super::*;
 use crate::model_vertex_declarations::{VertexElement};
 
 fn stub_fmt(_a: core::fmt::Arguments<'_>) -> String { String::new() }
+
+// ---- contract placed on the real function (Kani function contract); callers below are verified against it (stub_verified) ----
+//@contract fn=calculate_stack_size impl=^ModelFileHeader$
+//@| #[cfg_attr(kani, kani::ensures(|r: &u32| *r == self.vertex_declaration_count as u32 * 17 * 8))]
+
+//@unit props=C07 label=P tier=quick fn=model::ModelFileHeader::calculate_stack_size
+//@desc contract on the real fn: stack size = declarations x 17 slots x 8 bytes, for every declaration count (this is the callee contract the Verus unit update_headers assumes)
+#[kani::proof_for_contract(ModelFileHeader::calculate_stack_size)]
+fn k_stack_size_contract() {
+    let h = ModelFileHeader { version: 0, stack_size: 0, runtime_size: 0, vertex_declaration_count: kani::any(), material_count: 0, vertex_offsets: [0; 3], index_offsets: [0; 3],
+        vertex_buffer_size: [0; 3], index_buffer_size: [0; 3], lod_count: 0, index_buffer_streaming_enabled: false, has_edge_geometry: false };
+    let r = h.calculate_stack_size();
+    assert!(r == h.vertex_declaration_count as u32 * 136, "stack size = declarations x 17 x 8");
+    kani::cover!(true, "reachable");
+}
+
 fn bb() -> BoundingBox { BoundingBox { min: [0.0; 4], max: [0.0; 4] } }
 
 fn lod(mesh_index: u16, mesh_count: u16) -> MeshLod {
@@ -87,6 +103,7 @@ fn k_update_headers_1lod_2meshes() {
 //@desc smallest layout: stream offsets 0 and 20*count; vertex size 44*count; index size 2*indices padded by 1..16 to a multiple of 16; index section follows vertex section; file header mirrors the LOD
 #[kani::proof]
 #[kani::unwind(4)]
+#[kani::stub_verified(ModelFileHeader::calculate_stack_size)]
 fn k_update_headers_1lod_1mesh() {
     let meshes = vec![cmesh(0, [20, 24, 0], 2)];
     kani::assume(meshes[0].index_count < 0x0100_0000);
